@@ -159,6 +159,26 @@ pub fn in_guest_mode() -> bool {
     GUEST.load(Relaxed)
 }
 
+/// Is there a live guest-mode block starting at `p`?  `None` when the ledger
+/// cannot tell (tracking off or table overflow).
+pub fn is_live(p: usize) -> Option<bool> {
+    if !TRACK.load(Relaxed) || OVERFLOW.load(Relaxed) {
+        return None;
+    }
+    let mut i = slot_of(p);
+    for _ in 0..SLOTS {
+        let k = KEYS[i].load(Relaxed);
+        if k == 0 {
+            return Some(false);
+        }
+        if k == p {
+            return Some(true);
+        }
+        i = (i + 1) & (SLOTS - 1);
+    }
+    Some(false)
+}
+
 /// Sizes of the blocks currently in the ledger (debugging aid).
 pub fn live_sizes() -> Vec<(usize, usize)> {
     let _g = host_mode();
